@@ -279,14 +279,192 @@ def run_cancel(case):
     return {"lines": lines, "features": ["cancel"], "nontrivial": "cancel-%d-%d-%d-%d" % (case["na"], case["nb"], case["handler"], case["with_error"])}
 
 
+def run_reflush(case):
+    """C05: a flush body that synchronously calls an asynq function which creates (and awaits) an item of ITS OWN
+    kind: the new item must join a FRESH batch (the flushed one stopped being active before its body ran), so every
+    batch is flushed exactly once and the events nest properly (flush bodies calling asynq are not in the machine's
+    language; judged by a direct expectation)."""
+    import asynq
+    from asynq import batching
+
+    log = []
+
+    class B(batching.BatchBase):
+        def __init__(self, seq):
+            batching.BatchBase.__init__(self)
+            self.seq = seq
+
+        def _try_switch_active_batch(self):
+            if cur[0] is self:
+                cur[0] = B(self.seq + 1)
+
+        def _flush(self):
+            log.append("body-%d" % self.seq)
+            if self.seq < case["depth"]:
+                nested_values.append(helper(100 + self.seq))     # synchronous call from inside the flush body
+            for it in self.items:
+                it.set_value(it.payload * 2)
+
+    class I(batching.BatchItemBase):
+        def __init__(self, payload):
+            batching.BatchItemBase.__init__(self, cur[0])
+            self.payload = payload
+
+    cur = [None]
+    cur[0] = B(0)
+    nested_values = []
+
+    @asynq.asynq()
+    def helper(x):
+        return (yield I(x))
+
+    @asynq.asynq()
+    def root():
+        vals = yield [helper.asynq(i) for i in range(case["n"])]
+        return sum(vals)
+
+    asynq.scheduler.reset()
+    sched = asynq.scheduler.get_scheduler()
+    sched.on_before_batch_flush.subscribe(lambda b: log.append("before-%d" % b.seq))
+    sched.on_after_batch_flush.subscribe(lambda b: log.append("after-%d" % b.seq))
+    try:
+        out = root()
+        out = "ok" if out == 2 * sum(range(case["n"])) and nested_values == [2 * (100 + d) for d in reversed(range(case["depth"]))] else "wrong-value"
+    except BaseException as e:
+        out = "raised-" + type(e).__name__
+    clean = 1 if (len(sched._tasks) == 0 and sched.active_task is None) else 0
+    asynq.scheduler.reset()
+    lines = ["(case reflush %d %d %d)" % (case["id"], case["n"], case["depth"]),
+             "(result %s %d (%s))" % (out, clean, " ".join(log)), "(end)"]
+    return {"lines": lines, "features": ["reflush"], "nontrivial": "reflush-%d-%d" % (case["n"], case["depth"])}
+
+
+def run_overlap(case):
+    """C06: two with-blocks of one task that OVERLAP without being nested (the first lives in a helper generator the
+    task drives with next()): leaving the older one must not disturb the newer one, which is paused for the flush and
+    resumed afterwards (not expressible with the structured with of the machine's language; direct expectation)."""
+    import asynq
+    from asynq import batching, contexts
+
+    log = []
+
+    class B(batching.BatchBase):
+        def _try_switch_active_batch(self):
+            if cur[0] is self:
+                cur[0] = B()
+
+        def _flush(self):
+            log.append("flush")
+            for it in self.items:
+                it.set_value(1)
+
+    class I(batching.BatchItemBase):
+        def __init__(self):
+            batching.BatchItemBase.__init__(self, cur[0])
+
+    class C(contexts.AsyncContext):
+        def __init__(self, name):
+            self.name = name
+
+        def resume(self):
+            log.append("R" + self.name)
+
+        def pause(self):
+            log.append("P" + self.name)
+
+    cur = [None]
+    cur[0] = B()
+
+    def helper():
+        with C("a"):
+            yield 1          # suspended inside block a
+        yield 2
+
+    @asynq.asynq()
+    def task():
+        h = helper()
+        next(h)              # enter a
+        with C("b"):         # enter b while a is open
+            next(h)          # leave a: blocks a and b overlap
+            if case["extra"]:
+                with C("c"):
+                    yield I()
+            else:
+                yield I()
+        return 1
+
+    asynq.scheduler.reset()
+    try:
+        out = "ok" if task() == 1 else "wrong-value"
+    except BaseException as e:
+        out = "raised-" + type(e).__name__
+    asynq.scheduler.reset()
+    lines = ["(case overlap %d %d)" % (case["id"], 1 if case["extra"] else 0), "(result %s (%s))" % (out, " ".join(log)), "(end)"]
+    return {"lines": lines, "features": ["overlap"], "nontrivial": "overlap-%s" % case["extra"]}
+
+
+def run_resetbetween(case):
+    """C08: a task is created, then asynq.scheduler.reset() installs a fresh scheduler for the thread, then the task is
+    computed: inside its code get_active_task() must be that task, and nested tasks see their creator."""
+    import asynq
+
+    seen = []
+
+    @asynq.asynq()
+    def inner():
+        seen.append(asynq.scheduler.get_active_task())
+        return 1
+
+    @asynq.asynq()
+    def outer():
+        me = asynq.scheduler.get_active_task()
+        seen.append(me)
+        t = inner.asynq()
+        v = yield t
+        seen.append(asynq.scheduler.get_active_task())
+        if case["sync"]:
+            inner()
+            seen.append("after-sync")
+            seen.append(asynq.scheduler.get_active_task())
+        return (t, v)
+
+    asynq.scheduler.reset()
+    task = outer.asynq()
+    for _ in range(case["resets"]):
+        asynq.scheduler.reset()
+    try:
+        t_inner, v = task.value()
+        exp = [task, t_inner, task] + (["SKIP", "after-sync", task] if case["sync"] else [])
+        ok = len(seen) == len(exp) and all(e == "SKIP" or (s is e if not isinstance(e, str) else s == e) for s, e in zip(seen, exp))
+        out = "ok" if ok and v == 1 else "wrong-active-task"
+    except BaseException as e:
+        out = "raised-" + type(e).__name__
+    sched = asynq.scheduler.get_scheduler()
+    clean = 1 if (len(sched._tasks) == 0 and sched.active_task is None) else 0
+    asynq.scheduler.reset()
+    lines = ["(case resetbetween %d %d %d)" % (case["id"], case["resets"], 1 if case["sync"] else 0), "(result %s %d)" % (out, clean), "(end)"]
+    return {"lines": lines, "features": ["reset-between"], "nontrivial": "resetbetween-%d-%s" % (case["resets"], case["sync"])}
+
+
 def run_case_for(pid, case):
     from corerun import run_program
+    if case.get("special") == "reflush":
+        return run_reflush(case)
+    if case.get("special") == "overlap":
+        return run_overlap(case)
+    if case.get("special") == "resetbetween":
+        return run_resetbetween(case)
     if case.get("special") == "cancel":
         return run_cancel(case)
     if case.get("special") == "chain":
         return run_chain(case)
     if case.get("special") == "ctxraise":
         return run_ctxraise(case)
+    if case.get("family"):
+        # structured stress programs are kept compact in the case and expanded here (they nest thousands of levels deep)
+        fam = case["family"]
+        body = {"wide": lambda: coregen.balanced_tree(1, fam[1]), "many-yields": lambda: coregen.many_yields(fam[1])}[fam[0]]()
+        case = dict(case, tops=[["value", body]], profile=fam[0])
     opts = dict(case.get("opts", {}))
     ms = case.get("cfg", {}).get("maxStack")
     if ms is not None:
@@ -300,7 +478,7 @@ def run_case_for(pid, case):
                                            sx(["tops"] + [[c, b] for c, b in case["tops"]]))]
     lines += [sx(e) for e in tr]
     lines.append("(end)")
-    st = coregen.stats(case)
+    st = coregen.stats(case) if not case.get("family") else {}
     ntasks = sum(1 for e in tr if e[0] == "new" and e[2] == "task")
     nflush = sum(1 for e in tr if e[0] == "flushB")
     feats = ["profile=" + case.get("profile", "?"), "tops=%d" % len(case["tops"]),
@@ -324,6 +502,10 @@ def run_case_for(pid, case):
 
 
 def shrink_case(case):
+    if case.get("family"):
+        if case["family"][1] > 40:
+            yield dict(case, family=[case["family"][0], case["family"][1] // 2])
+        return
     if case.get("special"):
         if case.get("n", 0) > 10:
             yield dict(case, n=case["n"] // 2)
@@ -348,7 +530,7 @@ def shrink_case(case):
 
 
 def neighbours_case(case, rng, profiles):
-    if case.get("special"):
+    if case.get("special") or case.get("family"):
         return
     for _ in range(16):
         c = coregen.gen_case(rng, rng.choice(profiles), ntops=len(case["tops"]))
@@ -364,6 +546,8 @@ def neighbours_case(case, rng, profiles):
 
 def signature_for(case, v):
     sig = v["spec"]
+    if case.get("family"):
+        return sig + "/" + case["family"][0]
     if not case.get("special") and "nonasync" in json.dumps(case.get("tops")):
         sig += "/program-with-NonAsyncContext"
     if not case.get("special") and case.get("cfg", {}).get("maxStack") is not None and "active-task" in sig:
@@ -379,8 +563,17 @@ def make_plan(pid, tier, seed, mix, quick_n, thorough_n, ntops=(1,), extra=None)
         cases += extra(tier, rng)
     profs = [p for p, w in mix for _ in range(w)]
     for _ in range(n):
-        cases.append(coregen.gen_case(rng, rng.choice(profs), ntops=rng.choice(ntops)))
+        c = coregen.gen_case(rng, rng.choice(profs), ntops=rng.choice(ntops))
+        if rng.random() < 0.12:
+            # debug / profiling options are part of "configurations": none of them may change behaviour (C20), so the
+            # machine (which has no such options) must still agree
+            c["opts"] = {o: True for o in rng.sample(DEBUG_OPTS, rng.randint(1, 3))}
+        cases.append(c)
     return cases
+
+
+DEBUG_OPTS = ["COLLECT_PERF_STATS", "COLLECT_PERF_STATS", "DUMP_NEW_TASKS", "DUMP_CONTINUE_TASK", "DUMP_SCHEDULE_BATCH",
+              "DUMP_FLUSH_BATCH", "DUMP_COMPUTED", "DUMP_DEPENDENCIES", "DUMP_CONTEXTS", "DUMP_QUEUED_RESULTS"]
 
 
 def on_crash_terminates(r, v):
